@@ -4,7 +4,7 @@ From V Require Import Gen.Params Lib.Hex Wire.Varint Wire.Headers Wire.HeadersPr
      PktProt.PktNum PktProt.PktNumProofs PktProt.Protect PktProt.ProtectProofs PktProt.ProtectExamples
      PktProt.InitialProtect
      UFrames.Model UFrames.Proofs UFrames.ProofsLength Wire.FramesBase Wire.Frames
-     UPacker.Model UPacker.ProofsSize UPacker.ProofsFlight UPacker.ProofsDecrypt UPacker.ProofsRandom UPacker.ProofsWire UPacker.ProofsInitialKeys UPacker.ProofsFrames.
+     UPacker.Model UPacker.ProofsSize UPacker.ProofsFlight UPacker.ProofsDecrypt UPacker.ProofsRandom UPacker.ProofsWire UPacker.ProofsInitialKeys UPacker.ProofsFrames UPacker.ProofsFramesRandom.
 Import ListNotations.
 Open Scope Z_scope.
 
@@ -151,6 +151,15 @@ Lemma t_C10_random_split_exact : forall fuel hdr off rem maxSize ps rfs idx rf,
   0 < hdr + (1 + vlen off + vlen n + n) < (if (ps >? 0) && (ps <? maxSize) then ps else maxSize) - 16 ->
   popLoop (S fuel) off rem (initialBudget hdr off maxSize (0, ps) (BRandom rfs) idx - hdr) = ([(off, n)], off + n, rem - n).
 Proof. exact random_split_exact. Qed.
+
+Lemma t_C10_flight_datagram_crypto_bound : forall c helloLen plens k rfs pn pnLen h fs lf pk dl ix rp,
+  c_bk c = BRandom rfs -> rfs <> [] -> random_fits c rfs ->
+  nth_error (flight c helloLen plens) k = Some (DG pn pnLen h fs lf pk dl ix rp) ->
+  exists rf o n, rfFor rfs (Z.of_nat k) = Some rf /\ fs = [(o, n)] /\ 0 <= o /\ 0 < n <= maxCryptoData rf o.
+Proof. exact flight_datagram_crypto_bound. Qed.
+
+Lemma t_C10_random_fits_chrome146 : random_fits (wcfg (BRandom [(1215, 2, 3, 13)]) [1; 2] 0 [] 0) [(1215, 2, 3, 13)].
+Proof. exact random_fits_chrome146. Qed.
 
 Lemma t_C10_random_reserve_sufficient : forall len minpad maxping maxcrypto off (fs : list (Z * Z)) pings,
   0 <= off -> 0 < len -> off + len <= maxVarInt8 ->
@@ -376,6 +385,13 @@ Lemma t_C10_server_parses_passthrough_example :
   parseAll 3 (Cfg false false false 3) W_EncryptionInitial (passPayload [10; 11; 12; 13; 14] [(0, 2); (2, 3)] 2)
   = Some [FramesBase.FCrypto 0 [10; 11]; FramesBase.FCrypto 2 [12; 13; 14]].
 Proof. split; vm_compute; reflexivity. Qed.
+
+Lemma t_C10_server_parses_random : forall (c : Frames.cfg) p data base bs us ws bs' us',
+  rf_wf p -> 0 <= base -> base + zlen data <= maxVarInt8 ->
+  build_internal p data base bs us = UFrames.Model.Ok (ws, bs', us') ->
+  parseAll (S (length ws)) c W_EncryptionInitial (encode ws) = Some (wireFrames ws) /\
+  exact_cover data base ws.
+Proof. exact random_payload_parses. Qed.
 
 Lemma t_C10_server_reads_back_nonvacuous :
   (forall pn kp ad p, toy_open pn kp ad (toy_seal pn kp ad p) = Some p) /\
